@@ -165,6 +165,7 @@ class World:
         self.cfg = cfg
         self.seed = seed
         self.fs = SimFS(bufsize=cfg.get("bufsize"))
+        self.fs.mtime_mode = cfg.get("mtime_mode", "fine")
         self.sessions = {}
         self.model = {}
         self.mfs = {}            # ModelFS: path -> ("known", value) | ("absent",) | ("indet",)
@@ -563,6 +564,7 @@ def run_seed(prop, seed, tier, faulty, keep_trace=False):
     rng = Rng(seed)
     cfg = prop.config(rng.fork("cfg"), tier, faulty)
     cfg.setdefault("bufsize", rng.fork("buf").pick([16, 64, 512, 8192, 8192]))
+    cfg.setdefault("mtime_mode", rng.fork("mtime").pick(["fine", "fine", "fine", "coarse", "coarse"]))
     gen_rng = rng.fork("gen")
     env_rng = rng.fork("env")
     flt_rng = rng.fork("flt")
